@@ -7,6 +7,7 @@ import (
 	"fmt"
 	"os"
 	"path/filepath"
+	"regexp"
 	"strings"
 	"time"
 
@@ -29,7 +30,25 @@ type recOutcome struct {
 	wroteCfg     bool
 }
 
+var notifyRe = regexp.MustCompile(`"msg"="notify" "event"="(\w+)" "kind"="\*\w+\.(\w+)" "namespace"="([^"]*)" "name"="([^"]*)"`)
+
 func (r *Run) logSink(prefix, args string) {
+	if r.or.Handoff && prefix == "watchers" {
+		// an event the watchers accepted: it has to be in the batch some reconciliation takes (C14, L2)
+		if m := notifyRe.FindStringSubmatch(args); m != nil {
+			ev := map[string]string{"create": "add", "update": "update", "delete": "del"}[m[1]]
+			name := m[4]
+			if m[3] != "" {
+				name = m[3] + "/" + m[4]
+			}
+			if ev != "" {
+				r.probe("c14_l2_accepted_events")
+				r.bmu.Lock()
+				r.notifyPending[ev+"/"+m[2]+":"+name] = true
+				r.bmu.Unlock()
+			}
+		}
+	}
 	switch {
 	case strings.Contains(args, "syncing ") && strings.Contains(args, " host(s) and "):
 		r.cur.partial = true // only syncPartial logs this
@@ -618,6 +637,11 @@ func (r *Run) checkHandoff() {
 	r.bmu.Lock()
 	defer r.bmu.Unlock()
 	r.probe("model_compared")
+	for _, d := range sortedKeys(r.notifyPending) {
+		r.violate(&Violation{Property: "C14", Oracle: "hand-off", Class: "accepted-event-in-no-batch",
+			Witness: fmt.Sprintf("the watchers accepted an event (%s) and no reconciliation took a batch that holds it", d)})
+		return
+	}
 	for _, d := range sortedKeys(r.batchTaken) {
 		r.probe("c14_descriptions_taken")
 		if r.batchDelivered[d] < r.batchTaken[d] {
